@@ -31,6 +31,7 @@ static bool stepC16(const Case &c, const Result &ref, RunStats &st,
                     Chain &chain, JP &viol, std::set<std::string> &probes) {
     ExecReport rep = simExec(c, true);
     st.execs++;
+    st.bypassAllocs += rep.heap.bypassAllocs;
     chain.add(rep.res.digest());
     chain.add(rep.heap.log.h);
     for (auto &a : rep.heap.allocs) st.sitesReached.insert(symName(a.site));
